@@ -1,3 +1,5 @@
 import XrlCrystals.Hand.Crystals
 import XrlCrystals.Hand.Caller
+import XrlCrystals.Hand.Reader
+import XrlCrystals.Hand.Skeleton
 import XrlCrystals.Spec.Dict
